@@ -4,6 +4,8 @@ package main
 // state) and exhaustive small-scope enumeration. Every choice derives from one SplitMix64 seed.
 
 import (
+	"math"
+
 	"github.com/squadracorsepolito/acmelib"
 )
 
@@ -40,7 +42,15 @@ type gen struct {
 
 var sizeClasses = []int{1, 1, 2, 2, 3, 4, 4, 5, 7, 8, 8, 9, 12, 15, 16, 17, 24, 31, 32, 33, 48, 63, 64}
 var groupCounts = []int{1, 2, 2, 3, 4, 4, 8, 8, 2, 3, 4, 4096}
-var indexPool = []int{0, 1, 2, 3, 4, 7, 8, 15, 16, 31, 32, 255, 256, 1023, 65535, 65536, -1, -7, 1 << 40}
+var indexPool = []int{0, 1, 2, 3, 4, 7, 8, 15, 16, 31, 32, 255, 256, 1023, 65535, 65536, -1, -7, 1 << 40,
+	1<<31 - 1, 1 << 31, 1<<62 - 1, 1 << 62, math.MaxInt64, math.MinInt64}
+
+// integer arguments at the edge of the int range: no arithmetic on an unchecked argument may wrap
+var extremes = []int{math.MaxInt64, math.MaxInt64 - 1, math.MaxInt64 - 3, math.MaxInt64 - 64, math.MinInt64, math.MinInt64 + 1,
+	1 << 62, 1<<62 + 1, -(1 << 62), 1<<31 - 1, 1 << 31, 1<<31 + 1, -(1 << 31), 1 << 32, 1<<60 - 1, 1 << 60, 1 << 61}
+
+func (g *gen) extreme() int { return extremes[g.r.below(len(extremes))] }
+
 
 func (g *gen) sn() *snap { return g.run.cur }
 
@@ -110,6 +120,9 @@ func (g *gen) idArg(plausible []int) int {
 func (g *gen) startBits(hs []int, size, n int) []int {
 	sn := g.sn()
 	c := []int{0, -1, size - n, size - n + 1, size, g.r.below(size+3) - 1}
+	if g.r.chance(12) {
+		return []int{g.extreme()}
+	}
 	for _, y := range hs {
 		if y < 0 {
 			continue
@@ -120,6 +133,9 @@ func (g *gen) startBits(hs []int, size, n int) []int {
 }
 
 func (g *gen) amounts(gap int) []int {
+	if g.r.chance(12) {
+		return []int{g.extreme()}
+	}
 	return []int{0, -1, 1, 1, 2, 3, gap, gap + 1, gap - 1, 100, 1 + g.r.below(12)}
 }
 
@@ -423,6 +439,9 @@ func (g *gen) opResize() (op, bool) {
 	mi := g.sn().msgs[m]
 	need := (g.sn().lastEnd(mi.lay) + 7) / 8
 	c := []int{-1, 0, need, need - 1, need + 1, mi.bytes, mi.bytes + 1, mi.bytes - 1, 8, g.r.below(9), 9 + g.r.below(4)}
+	if g.r.chance(10) {
+		c = []int{g.extreme()}
+	}
 	return op{k: "resize", a: m, z: c[g.r.below(len(c))]}, true
 }
 
@@ -535,7 +554,7 @@ func (g *gen) opSetMinSize() (op, bool) {
 		return op{}, false
 	}
 	cur := g.sn().enums[e].size
-	c := []int{-1, 0, 1, 2, 3, 4, 8, cur, cur - 1, cur + 1, 1 + g.r.below(10)}
+	c := []int{-1, 0, 1, 2, 3, 4, 8, cur, cur - 1, cur + 1, 1 + g.r.below(10), math.MinInt64, -(1 << 62)}
 	o := op{k: "setminsize", a: e, z: c[g.r.below(len(c))]}
 	return o, true
 }
@@ -573,6 +592,9 @@ func (g *gen) pickMux() (int, bool) {
 }
 
 func (g *gen) gidArg(count int) int {
+	if g.r.chance(6) {
+		return g.extreme()
+	}
 	c := []int{0, 0, 1, count - 1, count - 1, count, -1, g.r.below(count + 1), g.r.below(count + 1)}
 	return c[g.r.below(len(c))]
 }
